@@ -1,12 +1,12 @@
 (* C13 - Spectral matrix estimation (fdd.SD_est): grid, pairing, scaling and phase convention.
-   Statements only: each theorem is closed by [exact] of a lemma of Proofs/P_spectra.v.
+   Statements only: each theorem is closed by [exact] of a lemma of Proofs/P_spectra.v or Proofs/P_spectra_deep2.v.
    sd_per / sd_cor are the function-level models of Model/M_spectra.v ('per' = Welch: segments of length n every
    step samples, mean removed, window w, DFT over the twiddle table tw, average of conj(X_i) X_j over nseg segments,
    coefficient dbl * scale * invK;  'cor' = box-car half-length periodogram -> irfft -> exponential window -> rfft). *)
 From Coq Require Import List Arith Bool Lia Ring Field ZArith QArith Qcanon Rdefinitions.
 From PyOMA.Base Require Import Carrier Cplx Show.
 From PyOMA.Model Require Import M_spectra.
-From PyOMA.Proofs Require Import P_spectra.
+From PyOMA.Proofs Require Import P_spectra P_spectra_deep2.
 Import ListNotations.
 
 (* ---------------- frequency grid (any field in which n is invertible) ---------------- *)
@@ -163,9 +163,13 @@ Theorem C13_per_circular_delay : forall (tw:nat->nat->CR) (w:nat->R) (invn scale
   = (cofR K g *c tw k d) *c sd_per K tw w invn scale invK n step nseg Y Y i i k.
 Proof. exact (sd_per_circular_delay R K Rth). Qed.
 
-(* NOT proved (a definition asserts nothing): for 'cor' the same circular delay of the half-length box-car segments
-   shifts the lag-domain sequence; the exponential window then makes Sy[i][j]/Sy[i][i] only approximately
-   g tw k d, which is why the property gives 'cor' a 30 % median tolerance - that clause rests on the oracle tests. *)
+(* ---------------- 'cor': inverse real FFT of a delayed spectrum, and what the exponential window leaves of it ----------------
+   The statement below was the round-1 formulation of the inverse-real-FFT shift theorem.  AS WRITTEN IT IS FALSE
+   (C13_full_statement_refuted, after the section): numpy.fft.irfft reads only the REAL part of line 0, and nothing in the
+   hypotheses fixes tw 0 d - the character property and |tw 0 d| = 1 are also satisfied by the row (-1)^t, for which
+   Re(g tw 0 d Pii 0) = -g Pii 0.  The missing hypothesis is tw 0 d = 1; numpy's table has tw k t = exp(-2 pi i k t/n),
+   so line 0 is exp(0) = 1 identically.  (The Nyquist line is pinned by the hypothesis tw (n/2) d = (-1)^d that was already
+   there.)  The definition is kept unchanged for the record; it asserts nothing. *)
 Definition C13_full_statement : Prop :=
   forall (tw:nat->nat->CR) (invn:R) (n d:nat) (g:R) (Pii Pij:nat->CR),
   (d < n)%nat -> Nat.even n = true ->
@@ -175,6 +179,70 @@ Definition C13_full_statement : Prop :=
   (forall k, (k <= n/2)%nat -> cim (Pii k) = o0 K) ->
   (forall k, (k <= n/2)%nat -> Pij k = (cofR K g *c tw k d) *c Pii k) ->
   forall t, (t<n)%nat -> irfft_of K tw invn n Pij t = g * irfft_of K tw invn n Pii ((t + (n - d)) mod n)%nat.
+(* the corrected theorem: with tw 0 d = 1 added (and the hypothesis that Pii is real dropped - it is not needed),
+   Pij k = g tw k d Pii k on the lines 0 .. n/2  =>  irfft(Pij) = g * irfft(Pii) delayed circularly by d *)
+Theorem C13_irfft_circular_delay :
+  forall (tw:nat->nat->CR) (invn:R) (n d:nat) (g:R) (Pii Pij:nat->CR),
+  (d < n)%nat -> Nat.even n = true ->
+  (forall k t, (k <= n/2)%nat -> (t<n)%nat -> tw k ((t + d) mod n)%nat = tw k t *c tw k d) ->
+  (forall k, (k <= n/2)%nat -> cconj K (tw k d) *c tw k d = c1 K) ->
+  tw 0%nat d = c1 K ->
+  tw (n/2)%nat d = cofR K (alt K d) ->
+  (forall k, (k <= n/2)%nat -> Pij k = (cofR K g *c tw k d) *c Pii k) ->
+  forall t, (t<n)%nat -> irfft_of K tw invn n Pij t = g * irfft_of K tw invn n Pii ((t + (n - d)) mod n)%nat.
+Proof. exact (irfft_circular_delay R K Rth). Qed.
+
+(* 'cor' cuts consecutive box-car segments of length m = n/2, removes their mean and transforms them with nfft = n, i.e.
+   ZERO-PADDED to length n.  Time domain => segment spectra: if the zero-padded segment s of channel j is g times that of
+   channel i delayed circularly (mod n) by d, then X_j^s[k] = g tw k d X_i^s[k].  (A circular delay of the UNPADDED
+   half-length segments would not do: tw k ((t+d) mod m) = tw k t tw k d holds for even k only.) *)
+Theorem C13_cor_segment_delay : forall (tw:nat->nat->CR) (invm:R) (m n d:nat) (g:R) (Y:rsig R) i j s k,
+  (m <= n)%nat -> (d < n)%nat ->
+  (forall t, (t<n)%nat -> tw k ((t + d) mod n)%nat = tw k t *c tw k d) ->
+  (forall t, (t<n)%nat ->
+     (if (t <? m)%nat then seg_dt K invm m (s*m) (Y j) t else o0 K)
+     = g * (if ((t + (n - d)) mod n <? m)%nat then seg_dt K invm m (s*m) (Y i) ((t + (n - d)) mod n)%nat else o0 K)) ->
+  stft K tw (ones K) invm m m (Y j) s k = (cofR K g *c tw k d) *c stft K tw (ones K) invm m m (Y i) s k.
+Proof. exact (stft_ones_delay R K Rth). Qed.
+(* ... and from the segment spectra through every stage of sd_cor.  With P = the raw box-car periodogram and
+   r_ab = irfft(P[a][b]) the lag-domain sequence BEFORE the exponential window we:
+   (1) P[i][j] = g tw k d P[i][i] on every line, and P[i][i] is real;
+   (2) r_ij t = g r_ii ((t - d) mod n): the lag sequence is delayed circularly by d, exactly;
+   (3) the windowed lag sequences agree after cross-multiplication by the window at the two positions;
+   (4) Sy[i][j][k] = g tw k d * rfft(we advanced by d * r_ii)[k], whereas Sy[i][i][k] = rfft(we * r_ii)[k];
+   (5) if the delay only rescales the window (we ((u+d) mod n) = c we u; no window: c = 1) the ratio is exactly c g tw k d;
+   (6) for a window with we (u+d) = c we u as long as u+d < n (the library's we t = 0.01^(t/n): c = 0.01^(d/n)) the ratio
+       Sy[i][j]/Sy[i][i] differs from c g tw k d exactly by the contribution of the d wrapped lags n-d .. n-1 of r_ii,
+       each weighted we v - c we (n-d+v) (= 0.99 we v for the library's window).
+   The 30 % median tolerance which the property text grants 'cor' on broadband data (where, in addition, the delay is
+   linear rather than circular) is an oracle-level statement and is NOT derived here. *)
+Theorem C13_cor_spectral_delay :
+  forall (tw:nat->nat->CR) (we:nat->R) (invm invn invK:R) (n nseg d:nat) (g:R) (Y:rsig R) (i j:nat),
+  (d < n)%nat -> Nat.even n = true ->
+  (forall k t, (k <= n/2)%nat -> (t<n)%nat -> tw k ((t + d) mod n)%nat = tw k t *c tw k d) ->
+  (forall k, (k <= n/2)%nat -> cconj K (tw k d) *c tw k d = c1 K) ->
+  tw 0%nat d = c1 K -> tw (n/2)%nat d = cofR K (alt K d) ->
+  (forall k s, (k <= n/2)%nat -> (s<nseg)%nat ->
+     stft K tw (ones K) invm (n/2) (n/2) (Y j) s k = (cofR K g *c tw k d) *c stft K tw (ones K) invm (n/2) (n/2) (Y i) s k) ->
+  let P := pxy K tw (ones K) invm invm invK n (n/2) (n/2) nseg Y Y in
+  let rii := irfft_of K tw invn n (P i i) in
+  let rij := irfft_of K tw invn n (P i j) in
+  (forall k, (k <= n/2)%nat -> P i j k = (cofR K g *c tw k d) *c P i i k /\ cim (P i i k) = o0 K) /\
+  (forall t, (t<n)%nat -> rij t = g * rii ((t + (n - d)) mod n)%nat) /\
+  (forall t, (t<n)%nat ->
+     we ((t + (n - d)) mod n)%nat * (we t * rij t) = g * (we t * (we ((t + (n - d)) mod n)%nat * rii ((t + (n - d)) mod n)%nat))) /\
+  (forall k, (k <= n/2)%nat ->
+     sd_cor K tw we invm invn invK n nseg Y Y i j k
+     = (cofR K g *c tw k d) *c rfft_of K tw n (fun u => we ((u + d) mod n)%nat * rii u) k) /\
+  (forall c k, (k <= n/2)%nat -> (forall u, (u<n)%nat -> we ((u + d) mod n)%nat = c * we u) ->
+     sd_cor K tw we invm invn invK n nseg Y Y i j k
+     = (cofR K (c * g) *c tw k d) *c sd_cor K tw we invm invn invK n nseg Y Y i i k) /\
+  (forall c k, (k <= n/2)%nat -> (forall u, (u + d < n)%nat -> we (u + d)%nat = c * we u) ->
+     sd_cor K tw we invm invn invK n nseg Y Y i j k
+     = (cofR K g *c tw k d) *c
+       (cscal K c (sd_cor K tw we invm invn invK n nseg Y Y i i k)
+        +c sumn (COps K) d (fun v => cscal K (osub K (we v) (c * we (n - d + v)%nat) * rii (n - d + v)%nat) (tw k (n - d + v)%nat)))).
+Proof. exact (sd_cor_spectral_delay R K Rth). Qed.
 
 (* the executed tables: n_all x n_ref x (n/2+1), entry (i,j,k) = the function-level model with scipy's derived
    parameters (step = n - noverlap, K = (Ndat - noverlap) div step, 1/n, scale = 1/(fs sum w^2), 1/K) *)
@@ -200,8 +268,8 @@ Theorem C13_cor_l_entry : forall twl wel n Ndat nall nref Yl Yrefl res i j k,
       (odiv K (o1 K) (ofnat K (nsegs Ndat (n/2) 0))) n (nsegs Ndat (n/2) 0) (sig_of K Yl) (sig_of K Yrefl) i j k.
 Proof. exact (sd_cor_l_entry R K). Qed.
 (* the two-carrier evaluator used for the large correspondence cases, instantiated with ONE carrier and phi = id, returns
-   exactly the entries of the one-carrier model (what remains unproved is only that the dyadic big-integer carrier
-   embeds homomorphically into Q; the harness compares the two evaluators exactly on the small cases of every run) *)
+   exactly the entries of the one-carrier model; the general case (phi any ring homomorphism, then the dyadic carrier) is
+   C13_per_x_transport .. C13_cor_x_dyadic below *)
 Theorem C13_per_x_id : forall twl wl fs n nov Ndat nall nref Yl Yrefl i j k,
   (i<nall)%nat -> (j<nref)%nat -> (k < nlines n)%nat ->
   ent3 R K (sd_per_x K K (fun x => x) twl wl (odiv K (o1 K) (ofnat K n)) fs n nov Ndat nall nref Yl Yrefl) i j k
@@ -214,6 +282,104 @@ Theorem C13_cor_x_id : forall twl wel n Ndat nall nref Yl Yrefl res resx i j k,
   ent3 R K resx i j k = ent3 R K res i j k.
 Proof. exact (sd_cor_x_id R K Rth). Qed.
 End S.
+
+(* the round-1 statement is false over the rationals: n = 2, d = 1, g = 1, both rows of the table = (-1)^t, Pii = 1 *)
+Theorem C13_full_statement_refuted : ~ C13_full_statement Qc QcOps.
+Proof. exact irfft_shift_claim_refuted. Qed.
+
+(* ---------------- the two-carrier evaluators, transported along a ring homomorphism ----------------
+   sd_per_x / sd_cor_x run the sums of the model in a carrier K1 and apply the non-ring factors in K2 after phi : K1 -> K2.
+   For ANY map phi that respects 0, 1, +, *, -, opp (K1 itself need not satisfy any law; K2 is a commutative ring) and maps
+   the reciprocal constants handed to the evaluator to the reciprocals the model computes (phi invn1 = 1/n, phi invm1 = 1/(n/2)),
+   every entry equals the entry of the ONE-carrier model over K2 run on the phi-images of the inputs. *)
+Section T.
+Variables (R1 R2:Type) (K1:Ops R1) (K2:Ops R2) (phi:R1->R2).
+Hypothesis R2th : ring_theory (o0 K2) (o1 K2) (oadd K2) (omul K2) (osub K2) (oopp K2) (@eq R2).
+Hypothesis phi_0 : phi (o0 K1) = o0 K2.
+Hypothesis phi_1 : phi (o1 K1) = o1 K2.
+Hypothesis phi_add : forall a b, phi (oadd K1 a b) = oadd K2 (phi a) (phi b).
+Hypothesis phi_mul : forall a b, phi (omul K1 a b) = omul K2 (phi a) (phi b).
+Hypothesis phi_sub : forall a b, phi (osub K1 a b) = osub K2 (phi a) (phi b).
+Hypothesis phi_opp : forall a, phi (oopp K1 a) = oopp K2 (phi a).
+Theorem C13_per_x_transport : forall twl wl invn1 fs n nov Ndat nall nref Yl Yrefl i j k,
+  phi invn1 = odiv K2 (o1 K2) (ofnat K2 n) ->
+  (i<nall)%nat -> (j<nref)%nat -> (k < nlines n)%nat ->
+  ent3 R2 K2 (sd_per_x K1 K2 phi twl wl invn1 fs n nov Ndat nall nref Yl Yrefl) i j k
+  = ent3 R2 K2 (sd_per_l K2 (map (cphi phi) twl) (map phi wl) fs n nov Ndat nall nref (map (map phi) Yl) (map (map phi) Yrefl)) i j k.
+Proof. exact (sd_per_x_transport R1 R2 K1 K2 phi R2th phi_0 phi_1 phi_add phi_mul phi_sub phi_opp). Qed.
+Theorem C13_cor_x_transport : forall twl wel invm1 invn1 n Ndat nall nref Yl Yrefl res resx i j k,
+  phi invm1 = odiv K2 (o1 K2) (ofnat K2 (n/2)) -> phi invn1 = odiv K2 (o1 K2) (ofnat K2 n) ->
+  sd_cor_l K2 (map (cphi phi) twl) (map phi wel) n Ndat nall nref (map (map phi) Yl) (map (map phi) Yrefl) = Some res ->
+  sd_cor_x K1 K2 phi twl wel invm1 invn1 n Ndat nall nref Yl Yrefl = Some resx ->
+  (2 <= n)%nat -> (i<nall)%nat -> (j<nref)%nat -> (k < nlines n)%nat ->
+  ent3 R2 K2 resx i j k = ent3 R2 K2 res i j k.
+Proof. exact (sd_cor_x_transport R1 R2 K1 K2 phi R2th phi_0 phi_1 phi_add phi_mul phi_sub phi_opp). Qed.
+End T.
+(* the scaling carrier can be exchanged afterwards by any psi : K2 -> K3 that respects 0, 1, +, * and the division
+   (no law is needed in K2: this is how plain Q, whose equality is not Leibniz, is read in Qc by psi = Q2Qc) *)
+Section U.
+Variables (R1 R2 R3:Type) (K1:Ops R1) (K2:Ops R2) (K3:Ops R3) (phi:R1->R2) (psi:R2->R3).
+Hypothesis psi_0 : psi (o0 K2) = o0 K3.
+Hypothesis psi_1 : psi (o1 K2) = o1 K3.
+Hypothesis psi_add : forall a b, psi (oadd K2 a b) = oadd K3 (psi a) (psi b).
+Hypothesis psi_mul : forall a b, psi (omul K2 a b) = omul K3 (psi a) (psi b).
+Hypothesis psi_div : forall a b, psi (odiv K2 a b) = odiv K3 (psi a) (psi b).
+Theorem C13_per_x_rescale : forall twl wl invn1 fs n nov Ndat nall nref Yl Yrefl i j k,
+  (i<nall)%nat -> (j<nref)%nat -> (k < nlines n)%nat ->
+  cphi psi (ent3 R2 K2 (sd_per_x K1 K2 phi twl wl invn1 fs n nov Ndat nall nref Yl Yrefl) i j k)
+  = ent3 R3 K3 (sd_per_x K1 K3 (fun x => psi (phi x)) twl wl invn1 (psi fs) n nov Ndat nall nref Yl Yrefl) i j k.
+Proof. exact (sd_per_x_post R1 R2 R3 K1 K2 K3 phi psi psi_0 psi_1 psi_add psi_mul psi_div). Qed.
+Theorem C13_cor_x_rescale : forall twl wel invm1 invn1 n Ndat nall nref Yl Yrefl res2 res3 i j k,
+  sd_cor_x K1 K2 phi twl wel invm1 invn1 n Ndat nall nref Yl Yrefl = Some res2 ->
+  sd_cor_x K1 K3 (fun x => psi (phi x)) twl wel invm1 invn1 n Ndat nall nref Yl Yrefl = Some res3 ->
+  (i<nall)%nat -> (j<nref)%nat -> (k < nlines n)%nat ->
+  cphi psi (ent3 R2 K2 res2 i j k) = ent3 R3 K3 res3 i j k.
+Proof. exact (sd_cor_x_post R1 R2 R3 K1 K2 K3 phi psi psi_0 psi_1 psi_add psi_mul psi_div). Qed.
+End U.
+(* the dyadic carrier.  DyOpsG / dy2qG (Proofs/P_spectra_deep2.v) are the text of M_spectra.DyOps / dy2q with Bignums'
+   BigZ operations replaced by an arbitrary implementation T of the integers read through toZ : T -> Z; DyOps = DyOpsG bigZ
+   BigZ.add .. and dy2q = dy2qG bigZ BigZ.to_Z hold by reflexivity (P_spectra_deep2.DyOps_is_generic, dy2q_is_generic).
+   Under the seven specifications below - for T = bigZ they are Bignums' lemmas BigZ.spec_add, spec_mul, spec_opp,
+   spec_shiftl, spec_of_Z, spec_0, spec_1 - dy2qG is a ring homomorphism into Q up to Qeq for EVERY exponent, and what the
+   harness evaluates for the large cases (sums over exact dyadics, scaling over plain Q, phi = dy2q), read in Qc, is entry
+   by entry the one-carrier model over Qc of the embedded inputs (dq = Q2Qc o dy2qG).
+   NOT in this file: the instance T = bigZ itself (P_spectra_deep2.sd_per_x_bigz, sd_cor_x_bigz are proved, but every
+   statement that mentions BigZ makes Print Assumptions list the Uint63 primitives, and BigZ.spec_* rest on the Uint63
+   specification assumptions of the standard library, which are outside this development's allow-list). *)
+Section V.
+Variables (T:Type) (tadd tmul:T->T->T) (topp:T->T) (tshl:T->T->T) (tofZ:Z->T) (t0 t1:T) (toZ:T->Z).
+Hypothesis s_add : forall x y, toZ (tadd x y) = (toZ x + toZ y)%Z.
+Hypothesis s_mul : forall x y, toZ (tmul x y) = (toZ x * toZ y)%Z.
+Hypothesis s_opp : forall x, toZ (topp x) = (- toZ x)%Z.
+Hypothesis s_shiftl : forall x p, toZ (tshl x p) = Z.shiftl (toZ x) (toZ p).
+Hypothesis s_of_Z : forall z, toZ (tofZ z) = z.
+Hypothesis s_0 : toZ t0 = 0%Z.
+Hypothesis s_1 : toZ t1 = 1%Z.
+Notation DyT := (DyOpsG T tadd tmul topp tshl tofZ t0 t1).
+Notation d2q := (dy2qG T toZ).
+Notation dqT := (dq T toZ).
+Theorem C13_dyadic_hom :
+  d2q (o0 DyT) == 0 /\ d2q (o1 DyT) == 1 /\
+  (forall x y, d2q (oadd DyT x y) == d2q x + d2q y) /\
+  (forall x y, d2q (omul DyT x y) == d2q x * d2q y) /\
+  (forall x y, d2q (osub DyT x y) == d2q x - d2q y) /\
+  (forall x, d2q (oopp DyT x) == - d2q x).
+Proof. exact (dy2q_hom T tadd tmul topp tshl tofZ t0 t1 toZ s_add s_mul s_opp s_shiftl s_of_Z s_0 s_1). Qed.
+Theorem C13_per_x_dyadic : forall twl wl invn1 (fs:Q) n nov Ndat nall nref Yl Yrefl i j k,
+  dqT invn1 = odiv QcOps (o1 QcOps) (ofnat QcOps n) ->
+  (i<nall)%nat -> (j<nref)%nat -> (k < nlines n)%nat ->
+  cphi Q2Qc (ent3 Q QOps_spectra (sd_per_x DyT QOps_spectra d2q twl wl invn1 fs n nov Ndat nall nref Yl Yrefl) i j k)
+  = ent3 Qc QcOps (sd_per_l QcOps (map (cphi dqT) twl) (map dqT wl) (Q2Qc fs) n nov Ndat nall nref
+                     (map (map dqT) Yl) (map (map dqT) Yrefl)) i j k.
+Proof. exact (sd_per_x_dyadic T tadd tmul topp tshl tofZ t0 t1 toZ s_add s_mul s_opp s_shiftl s_of_Z s_0 s_1). Qed.
+Theorem C13_cor_x_dyadic : forall twl wel invm1 invn1 n Ndat nall nref Yl Yrefl res resx i j k,
+  dqT invm1 = odiv QcOps (o1 QcOps) (ofnat QcOps (n/2)) -> dqT invn1 = odiv QcOps (o1 QcOps) (ofnat QcOps n) ->
+  sd_cor_l QcOps (map (cphi dqT) twl) (map dqT wel) n Ndat nall nref (map (map dqT) Yl) (map (map dqT) Yrefl) = Some res ->
+  sd_cor_x DyT QOps_spectra d2q twl wel invm1 invn1 n Ndat nall nref Yl Yrefl = Some resx ->
+  (2 <= n)%nat -> (i<nall)%nat -> (j<nref)%nat -> (k < nlines n)%nat ->
+  cphi Q2Qc (ent3 Q QOps_spectra resx i j k) = ent3 Qc QcOps res i j k.
+Proof. exact (sd_cor_x_dyadic T tadd tmul topp tshl tofZ t0 t1 toZ s_add s_mul s_opp s_shiftl s_of_Z s_0 s_1). Qed.
+End V.
 
 (* ---------------- at the real numbers: Hermitian positive semidefinite ---------------- *)
 Theorem C13_per_hermitian_psd_R :
@@ -249,11 +415,22 @@ Print Assumptions C13_cor_scaled_copy.
 Print Assumptions C13_per_parseval.
 Print Assumptions C13_dft_shift.
 Print Assumptions C13_per_circular_delay.
+Print Assumptions C13_irfft_circular_delay.
+Print Assumptions C13_cor_segment_delay.
+Print Assumptions C13_cor_spectral_delay.
+Print Assumptions C13_full_statement_refuted.
 Print Assumptions C13_per_l_shape.
 Print Assumptions C13_per_l_entry.
 Print Assumptions C13_cor_l_entry.
 Print Assumptions C13_per_x_id.
 Print Assumptions C13_cor_x_id.
+Print Assumptions C13_per_x_transport.
+Print Assumptions C13_cor_x_transport.
+Print Assumptions C13_per_x_rescale.
+Print Assumptions C13_cor_x_rescale.
+Print Assumptions C13_dyadic_hom.
+Print Assumptions C13_per_x_dyadic.
+Print Assumptions C13_cor_x_dyadic.
 Print Assumptions C13_per_hermitian_psd_R.
 
 (* ---------------- non-vacuity: exact instance over Gaussian rationals ----------------
@@ -296,3 +473,73 @@ Example C13_example_twiddle_hypotheses :
        C13_ex_ceqb (tw k ((t + d) mod 4)%nat) (cmul QcOps (tw k t) (tw k d))) (seq 0 4)) (seq 0 4)) (seq 0 3)
   = true.
 Proof. vm_compute. reflexivity. Qed.
+
+(* irfft shift theorem: the exact table of n = 4, d = 1, g = 2, Pii = (3, 5+i, 7) (deliberately not real at line 1),
+   Pij k = 2 tw k 1 Pii k: every hypothesis of C13_irfft_circular_delay holds, the conclusion is checked at every t, and
+   irfft(Pii) is not constant *)
+Definition C13_ex_Pii (k:nat) : Qc*Qc := nth k [(q 3 1, q 0 1); (q 5 1, q 1 1); (q 7 1, q 0 1)] (c0 QcOps).
+Example C13_example_irfft_delay :
+  let tw := tw_of QcOps C13_ex_tw 4 in
+  let Pij := fun k => cmul QcOps (cmul QcOps (cofR QcOps (q 2 1)) (tw k 1%nat)) (C13_ex_Pii k) in
+  forallb (fun k => forallb (fun t => C13_ex_ceqb (tw k ((t + 1) mod 4)%nat) (cmul QcOps (tw k t) (tw k 1%nat))) (seq 0 4)
+                    && C13_ex_ceqb (cmul QcOps (cconj QcOps (tw k 1%nat)) (tw k 1%nat)) (c1 QcOps)) (seq 0 3)
+  && C13_ex_ceqb (tw 0%nat 1%nat) (c1 QcOps) && C13_ex_ceqb (tw 2%nat 1%nat) (cofR QcOps (alt QcOps 1))
+  && forallb (fun t => Qc_eq_bool (irfft_of QcOps tw (q 1 4) 4 Pij t)
+                                  (q 2 1 * irfft_of QcOps tw (q 1 4) 4 C13_ex_Pii ((t + (4 - 1)) mod 4)%nat)) (seq 0 4)
+  && negb (Qc_eq_bool (irfft_of QcOps tw (q 1 4) 4 C13_ex_Pii 1) (irfft_of QcOps tw (q 1 4) 4 C13_ex_Pii 2))
+  = true.
+Proof. vm_compute. reflexivity. Qed.
+(* 'cor' with a delay: n = 8, half-length segments of 4 samples, 2 segments, d = 1, g = 2.  Exact 8th roots of unity are
+   irrational, so the table is made of characters of Z/8 with values in Q(i): row k is zeta_k^t with zeta = 1, -i, -1, i, -1
+   (it satisfies every hypothesis the theorems put on tw - the character property, unit modulus, row 0 = 1, row n/2 = (-1)^t -
+   exactly as numpy's exp(-2 pi i k t/8) does).  Channel 0 has the zero-mean segments (1,2,-3,0), (2,-1,-1,0); channel 1 is
+   2 x channel 0 delayed by one sample inside each zero-padded segment.  Checked: the hypotheses of C13_cor_segment_delay
+   and C13_cor_spectral_delay (time-domain form), the window hypothesis of conclusion (6) for we t = 2^(-t), and conclusion (2)
+   at every lag, with r_ii not identically zero *)
+Definition C13_ex8_tw (k t:nat) : Qc*Qc := tw_of QcOps C13_ex_tw 4 (nth k [0;1;2;3;2]%nat 0%nat) t.
+Definition C13_ex8_Y : list (list Qc) :=
+  [[q 1 1;q 2 1;q (-3) 1;q 0 1; q 2 1;q (-1) 1;q (-1) 1;q 0 1];
+   [q 0 1;q 2 1;q 4 1;q (-6) 1; q 0 1;q 4 1;q (-2) 1;q (-2) 1]].
+Definition C13_ex8_we (t:nat) : Qc := nth t [q 1 1;q 1 2;q 1 4;q 1 8;q 1 16;q 1 32;q 1 64;q 1 128] 0%Qc.
+Example C13_example_cor_delay :
+  let tw := C13_ex8_tw in let Y := sig_of QcOps C13_ex8_Y in
+  let P := pxy QcOps tw (ones QcOps) (q 1 4) (q 1 4) (q 1 2) 8 4 4 2 Y Y in
+  forallb (fun k => forallb (fun t => C13_ex_ceqb (tw k ((t + 1) mod 8)%nat) (cmul QcOps (tw k t) (tw k 1%nat))) (seq 0 8)
+                    && C13_ex_ceqb (cmul QcOps (cconj QcOps (tw k 1%nat)) (tw k 1%nat)) (c1 QcOps)) (seq 0 5)
+  && C13_ex_ceqb (tw 0%nat 1%nat) (c1 QcOps) && C13_ex_ceqb (tw 4%nat 1%nat) (cofR QcOps (alt QcOps 1))
+  && forallb (fun s => forallb (fun t =>
+       Qc_eq_bool (if (t <? 4)%nat then seg_dt QcOps (q 1 4) 4 (s*4) (Y 1%nat) t else 0%Qc)
+                  (q 2 1 * (if ((t + (8 - 1)) mod 8 <? 4)%nat then seg_dt QcOps (q 1 4) 4 (s*4) (Y 0%nat) ((t + (8 - 1)) mod 8)%nat else 0%Qc)))
+       (seq 0 8)) (seq 0 2)
+  && forallb (fun u => Qc_eq_bool (C13_ex8_we (u + 1)) (q 1 2 * C13_ex8_we u)) (seq 0 7)
+  && forallb (fun t => Qc_eq_bool (irfft_of QcOps tw (q 1 8) 8 (P 0 1)%nat t)
+                                  (q 2 1 * irfft_of QcOps tw (q 1 8) 8 (P 0 0)%nat ((t + (8 - 1)) mod 8)%nat)) (seq 0 8)
+  && negb (Qc_eq_bool (irfft_of QcOps tw (q 1 8) 8 (P 0 0)%nat 1) 0%Qc)
+  = true.
+Proof. vm_compute. reflexivity. Qed.
+(* dyadic carrier: the implementation T = Z (toZ = identity) satisfies the seven specifications by reflexivity; on the data of
+   C13_example_per written as dyadics (Hann samples 1/2 = (1,1), 1/n = (1,2)) the two-carrier evaluator returns the table of
+   C13_example_per, and C13_per_x_dyadic applies to it *)
+Definition C13_exZ := DyOpsG Z Z.add Z.mul Z.opp Z.shiftl (fun z => z) 0%Z 1%Z.
+Definition C13_exZ_tw : list (dyG Z * dyG Z) := [((1,0),(0,0)); ((0,0),(-1,0)); ((-1,0),(0,0)); ((0,0),(1,0))]%Z.
+Definition C13_exZ_w : list (dyG Z) := [(0,0); (1,1); (1,0); (1,1)]%Z.
+Definition C13_exZ_Y : list (list (dyG Z)) :=
+  [[(1,0);(0,0);(-1,0);(0,0);(1,0);(0,0);(-1,0);(0,0)];[(0,0);(2,0);(0,0);(-2,0);(0,0);(2,0);(0,0);(-2,0)]]%Z.
+Example C13_example_dyadic :
+  dq Z (fun z => z) (1,2)%Z = odiv QcOps (o1 QcOps) (ofnat QcOps 4) /\
+  map (map (map (fun z => (Qred (fst z), Qred (snd z)))))
+      (sd_per_x C13_exZ QOps_spectra (dy2qG Z (fun z => z)) C13_exZ_tw C13_exZ_w (1,2)%Z 1%Q 4 2 8 2 2 C13_exZ_Y C13_exZ_Y)
+  = [[[(2 # 3, 0); (4 # 3, 0); (2 # 3, 0)]; [(0, 0); (0, -8 # 3); (0, 0)]];
+     [[(0, 0); (0, 8 # 3); (0, 0)]; [(0, 0); (16 # 3, 0); (0, 0)]]]%Q.
+Proof. split; [apply Qc_is_canon; vm_compute; reflexivity|vm_compute; reflexivity]. Qed.
+Example C13_example_dyadic_applies : forall i j k, (i<2)%nat -> (j<2)%nat -> (k < nlines 4)%nat ->
+  cphi Q2Qc (ent3 Q QOps_spectra
+     (sd_per_x C13_exZ QOps_spectra (dy2qG Z (fun z => z)) C13_exZ_tw C13_exZ_w (1,2)%Z 1%Q 4 2 8 2 2 C13_exZ_Y C13_exZ_Y) i j k)
+  = ent3 Qc QcOps (sd_per_l QcOps (map (cphi (dq Z (fun z => z))) C13_exZ_tw) (map (dq Z (fun z => z)) C13_exZ_w) (Q2Qc 1) 4 2 8 2 2
+                     (map (map (dq Z (fun z => z))) C13_exZ_Y) (map (map (dq Z (fun z => z))) C13_exZ_Y)) i j k.
+Proof.
+  intros i j k Hi Hj Hk.
+  apply (C13_per_x_dyadic Z Z.add Z.mul Z.opp Z.shiftl (fun z => z) 0%Z 1%Z (fun z => z)
+           (fun _ _ => eq_refl) (fun _ _ => eq_refl) (fun _ => eq_refl) (fun _ _ => eq_refl) (fun _ => eq_refl) eq_refl eq_refl);
+    [apply Qc_is_canon; vm_compute; reflexivity|assumption|assumption|assumption].
+Qed.
